@@ -276,6 +276,8 @@ class Program:
         self.renames = unrename.compute({m: t[3] for m, t in parsed.items()}, PKG) if os.environ.get("SA_NO_UNRENAME") != "1" \
             else unrename.Renames()
         unrename.apply({m: t[3] for m, t in parsed.items()}, self.renames)
+        self.inlined_constants = unrename.inline_new_constants({m: t[3] for m, t in parsed.items()}, PKG) \
+            if os.environ.get("SA_NO_UNRENAME") != "1" else []
         for mod, (path, rel, src, tree) in parsed.items():
             self.modules[mod] = Module(mod, path, rel, src, tree)
             self.modules[mod].program = self
@@ -415,6 +417,13 @@ class Program:
                         v = self.lit(m, n)
                         if v is not NOLIT:
                             n._lit = v
+                        else:
+                            try:
+                                w = self.fold(m, n)
+                            except Unfoldable:
+                                continue
+                            if isinstance(w, (tuple, list, frozenset)) and all(isinstance(x, (str, int, float, bool)) for x in w):
+                                n._litseq = tuple(w)
 
     def lit(self, module, node):
         """Value of a scalar literal: a Constant, or a name that resolves to a module-level str / number / bool constant
@@ -496,6 +505,17 @@ def lit(node):
         if isinstance(v, (int, float)) and not isinstance(v, bool):
             return -v
     return NOLIT
+
+
+def lits(node):
+    """All scalar literal values written in (or named by) an expression, containers of scalars included."""
+    out = set()
+    for y in ast.walk(node):
+        v = lit(y)
+        if v is not NOLIT and not isinstance(y, ast.UnaryOp):
+            out.add(v)
+        out.update(getattr(y, "_litseq", ()))
+    return out
 
 
 def is_lit(node, *values):
